@@ -502,6 +502,8 @@ pub struct World {
     pub injected_seen: bool,
     /// engine T: wakers of `PendLater` steps are handed to other threads through this table
     pub threaded: Option<std::sync::Arc<crate::child::TShared>>,
+    /// small-scope DFS sweep: spend no decisions on variations that do not change the library's control flow
+    pub small_mode: bool,
 }
 
 #[derive(Default, Debug, Clone)]
@@ -545,6 +547,7 @@ impl World {
             root: None,
             injected_seen: false,
             threaded: None,
+            small_mode: false,
         }
     }
     fn rnd(&mut self) -> u64 {
